@@ -14,6 +14,45 @@ let split_prefix (op : string) : string * n list =
 let show_buf_st ((b, r) : n list * unit res) : string =
   match r with Ok _ -> "ok " ^ hex b | Err e -> "err " ^ show_err e ^ " " ^ hex b | Panic -> "panic"
 
+
+(* chain <registers as a hex list> op args | op args | ... : ChainWalk.run_b over byte registers, a register argument is
+   @<index> (lists of them comma-separated, _ = none); the outcome is the whole final register file *)
+let reg_ix (s : string) : nat = nat_of_int (int_of_string (String.sub s 1 (String.length s - 1)))
+let reg_ixs (s : string) : nat list = if s = "_" then [] else List.map reg_ix (String.split_on_char ',' s)
+let chain_op (f : string array) : op3 =
+  let b o = OOp2 (OBase o) in
+  match f.(0) with
+  | "concat" -> b (OConcat (reg_ix f.(1), reg_ix f.(2)))
+  | "delete_by_name" -> b (ODeleteByName (reg_ix f.(1), unhex f.(2)))
+  | "delete_by_index" -> b (ODeleteByIndex (reg_ix f.(1), z_of_zt (ZA.of_string f.(2))))
+  | "array_insert" -> b (OArrayInsert (reg_ix f.(1), z_of_zt (ZA.of_string f.(2)), reg_ix f.(3)))
+  | "object_insert" -> b (OObjectInsert (reg_ix f.(1), unhex f.(2), reg_ix f.(3), f.(4) = "1"))
+  | "object_delete" -> b (OObjectDelete (reg_ix f.(1), hexlist f.(2)))
+  | "object_pick" -> b (OObjectPick (reg_ix f.(1), hexlist f.(2)))
+  | "strip_nulls" -> b (OStripNulls (reg_ix f.(1)))
+  | "build_array" -> b (OBuildArray (reg_ixs f.(1)))
+  | "build_object" -> b (OBuildObject (hexlist f.(1), reg_ixs f.(2)))
+  | "get_by_index" -> b (OGetByIndex (reg_ix f.(1), n_of_zt (ZA.of_string f.(2))))
+  | "get_by_name" -> b (OGetByName (reg_ix f.(1), unhex f.(2), f.(3) = "1"))
+  | "array_distinct" -> b (ODistinct (reg_ix f.(1)))
+  | "array_intersection" -> b (OIntersection (reg_ix f.(1), reg_ix f.(2)))
+  | "array_except" -> b (OExcept (reg_ix f.(1), reg_ix f.(2)))
+  | "reencode" -> b (OReencode (reg_ix f.(1)))
+  | "get_by_keypath" -> OOp2 (OGetByKeypath (reg_ix f.(1), parse_keypaths f.(2)))
+  | "delete_by_keypath" -> OOp2 (ODeleteByKeypath (reg_ix f.(1), parse_keypaths f.(2)))
+  | "object_keys" -> OOp2 (OObjectKeys (reg_ix f.(1)))
+  | "select" -> OSelect (reg_ix f.(1), parse_jsonpath f.(2), mode_of f.(3))
+  | "get_by_path" -> OGetByPath (reg_ix f.(1), parse_jsonpath f.(2), MMixed)
+  | "get_by_path_first" -> OGetByPath (reg_ix f.(1), parse_jsonpath f.(2), MFirst)
+  | "get_by_path_array" -> OGetByPath (reg_ix f.(1), parse_jsonpath f.(2), MArray)
+  | o -> failwith ("chain: unknown op " ^ o)
+let chain_ops (a : string list) : op3 list =
+  let rec go cur acc = function
+    | [] -> List.rev (if cur = [] then acc else List.rev cur :: acc)
+    | "|" :: r -> go [] (if cur = [] then acc else List.rev cur :: acc) r
+    | x :: r -> go (x :: cur) acc r in
+  List.map (fun f -> chain_op (Array.of_list f)) (go [] [] a)
+
 let run (op_full : string) (a : string array) : string =
   let op, prefix = split_prefix op_full in
   match op with
@@ -152,5 +191,8 @@ let run (op_full : string) (a : string array) : string =
       (match value_to_serde v with
        | Ok j -> let back = serde_to_value j in "ok " ^ show_val back ^ " " ^ show_bool (value_eqb back v)
        | r -> show_res (fun _ -> "") r)
+  | "chain" ->
+      let regs = run_b (hexlist a.(0)) (chain_ops (List.tl (Array.to_list a))) in
+      "ok " ^ String.concat "," (List.map hex regs)
   | _ -> "unknown-op " ^ op
 
